@@ -69,7 +69,93 @@ def gen_cases(tier, seed):
         cfg["ctx"] = 0
         cases.append({"cfg": cfg, "policy": "fresh", "huge": [-150.0, -40.0, -1000.0][i % 3], "seed": env.subseed(seed, "c07h", i),
                       "world": "f64" if i % 2 else "f32", "cost": 1})
+    # the unconditional transform requested for the identity features is the library's own Piecewise*CDF with the layer's bins,
+    # tails and tail bound: compared with that class built by hand (same parameter values)
+    k = 0
+    for fam in ("coupling_linear", "coupling_quadratic", "coupling_cubic", "coupling_rq"):
+        for Bt in (0.5, 3.0, 1.0):
+            for image in (False, True):
+                if tier == "quick" and (k % 3 == 2):
+                    k += 1
+                    continue
+                cfg = zoo.FAM[fam].sample_cfg(rng, tier)
+                cfg.update({"mask": [1.0, 0.0, -1.0, 2.0], "shape": [4] + ([2, 2] if image else []), "ctx": 0, "uncond": True,
+                            "tails": "linear", "B": Bt, "bins": max(cfg["bins"], zoo.FAM[fam].minbins_tails, 3)})
+                cases.append({"cfg": cfg, "policy": "randn1", "uncond_ref": True, "seed": env.subseed(seed, "c07u", fam, Bt, image),
+                              "world": "f64", "cost": 1})
+                k += 1
     return cases
+
+
+def run_uncond_ref(case):
+    from nflows.transforms import nonlinearities as NL
+    r = R(case)
+    cfg = case["cfg"]
+    fam = cfg["fam"]
+    Bt = cfg["B"]
+    try:
+        model = zoo.make(cfg, "randn1", case["seed"])
+    except Exception as e:
+        r.ev()
+        r.viol("construct", "%s constructor raises" % fam, exc=repr(e)[:200], cfg=cfg)
+        return r.done()
+    ut = getattr(model, "unconditional_transform", None)
+    if ut is None:
+        r.inconc("no unconditional transform on the layer")
+        return r.done()
+    image = len(cfg["shape"]) == 3
+    I = [i for i, m_ in enumerate(cfg["mask"]) if not m_ > 0]
+    cls = {"coupling_linear": NL.PiecewiseLinearCDF, "coupling_quadratic": NL.PiecewiseQuadraticCDF,
+           "coupling_cubic": NL.PiecewiseCubicCDF, "coupling_rq": NL.PiecewiseRationalQuadraticCDF}[fam]
+    kw = {}
+    if fam != "coupling_linear":
+        if cfg.get("minw"):
+            kw["min_bin_width"] = cfg["minw"]
+        if cfg.get("minh"):
+            kw["min_bin_height"] = cfg["minh"]
+    if fam == "coupling_rq" and cfg.get("minder"):
+        kw["min_derivative"] = cfg["minder"]
+    try:
+        ref = cls(shape=[len(I)] + (cfg["shape"][1:] if image else []), num_bins=cfg["bins"], tails="linear", tail_bound=Bt, **kw)
+        ref.load_state_dict(ut.state_dict())
+        ref = ref.to(next(ut.parameters()).dtype).eval()
+    except Exception as e:
+        r.inconc("reference CDF could not be built: %r" % (e,))
+        return r.done()
+    g = torch.Generator().manual_seed(case["seed"] + 1)
+    n = 7
+    # identity features spread over [-1.6 max(B, 1), 1.6 max(B, 1)] (inside the bound, between the bound and one, beyond both),
+    # transformed features inside the bound
+    span = 1.6 * max(Bt, 1.0)
+    x = (torch.rand((n,) + tuple(cfg["shape"]), generator=g, dtype=torch.float64) * 2 - 1).to(torch.get_default_dtype())
+    xi = x[:, I] * span
+    x = x * (0.9 * Bt)
+    x[:, I] = xi
+    for direction in ("forward", "inverse"):
+        try:
+            with torch.no_grad():
+                out, lad = (model.forward if direction == "forward" else model.inverse)(x, None)
+                want, wlad = (ref.forward if direction == "forward" else ref.inverse)(x[:, I], None)
+        except Exception as e:
+            r.count("uncond_ref_call_raised")
+            r.sample({"subject": fam, "error": repr(e)[:200]})
+            continue
+        r.ev(n)
+        r.count("uncond_reference_rows", n)
+        err = float((out[:, I] - want).abs().max())
+        r.worst("uncond_ref_err/1e-12", err / 1e-12)
+        if not err <= 1e-12 * (1 + span):
+            r.viol("uncond_transform", "%s: identity features are not transformed by the Piecewise CDF with the layer's bins, tails and tail bound"
+                   % fam, direction=direction, max_diff=err, tail_bound=Bt, cfg=cfg)
+            continue
+        outside = xi.abs() > Bt
+        if outside.any() and not torch.equal(out[:, I][outside], xi[outside]):
+            r.viol("uncond_transform", "%s: the unconditional transform is not the identity outside the tail bound" % fam,
+                   direction=direction, tail_bound=Bt, cfg=cfg)
+            continue
+        r.cell(fam, "uncond_ref", direction, Bt, image)
+    r.sample({"subject": fam, "uncond_ref": True, "tail_bound": Bt})
+    return r.done()
 
 
 def run_huge(case):
@@ -125,6 +211,8 @@ def _call(r, fn, z, c, what, fam, cfg):
 def run_case(case):
     if case.get("huge") is not None:
         return run_huge(case)
+    if case.get("uncond_ref"):
+        return run_uncond_ref(case)
     r = R(case)
     cfg, pol = case["cfg"], case["policy"]
     fam = cfg["fam"]
